@@ -969,7 +969,7 @@ static EntryTableBArray bufr_tableb_read
    fp = fopen ( filename, "rb" ) ;
    if (fp == NULL)
       {
-      sprintf( buf, _("Warning: can't open Table B file %s\n"), filename );
+      snprintf( buf, sizeof(buf), _("Warning: can't open Table B file %s\n"), filename );
       bufr_print_debug( buf );
       return NULL;
       }
